@@ -361,6 +361,9 @@ func runC20(r *Run) {
 		}
 	}
 	rc.Done()
+	rt := r.Rule("C20.retain", "in the hot closure a slice field of a retained object (message, destination value, pooled object) is only ever assigned a value derived from its own previous value (reslice without capacity clamp, append onto it): the warm backing array and its capacity survive every operation", 5)
+	checkRetained(r, rt, hot)
+	rt.Done()
 }
 
 // retainedBase: the append base derives from storage retained across calls (a field of the message,
@@ -416,4 +419,247 @@ func retainedBaseV(v ssa.Value, depth int, seen map[ssa.Value]bool) bool {
 		}
 	}
 	return false
+}
+
+// derivedFromField: v is the slice held by field fv (of any object), possibly resliced without a
+// capacity clamp, appended to, or merged by phis; clamp reports a 3-index reslice on the way.
+func derivedFromField(v ssa.Value, fv *types.Var, depth int, seen map[ssa.Value]bool, clamp *bool) bool {
+	if depth > 12 || v == nil {
+		return false
+	}
+	if seen[v] {
+		return true
+	}
+	seen[v] = true
+	switch x := v.(type) {
+	case *ssa.Slice:
+		if x.Max != nil {
+			*clamp = true
+		}
+		return derivedFromField(x.X, fv, depth+1, seen, clamp)
+	case *ssa.ChangeType:
+		return derivedFromField(x.X, fv, depth+1, seen, clamp)
+	case *ssa.Phi:
+		for _, e := range x.Edges {
+			if !derivedFromField(e, fv, depth+1, seen, clamp) {
+				return false
+			}
+		}
+		return true
+	case *ssa.Call:
+		if isBuiltinCall(x, "append") {
+			return derivedFromField(x.Call.Args[0], fv, depth+1, seen, clamp)
+		}
+	case *ssa.UnOp:
+		if x.Op == token.MUL {
+			if fa, ok := x.X.(*ssa.FieldAddr); ok {
+				return fieldOfAddr(fa) == fv
+			}
+			if _, ok := x.X.(*ssa.Parameter); ok && fv == nil {
+				return true
+			}
+			switch a := x.X.(type) {
+			case *ssa.Alloc, *ssa.FreeVar:
+				if vs, ok := cellStores(a); ok && len(vs) > 0 {
+					for _, sv := range vs {
+						if !derivedFromField(sv, fv, depth+1, seen, clamp) {
+							return false
+						}
+					}
+					return true
+				}
+			}
+		}
+	case *ssa.Parameter:
+		if args, known := callerArgsOf(x); known {
+			for _, a := range args {
+				if !derivedFromField(a, fv, depth+1, seen, clamp) {
+					return false
+				}
+			}
+			return true
+		}
+	}
+	return false
+}
+
+// cellStores: the values stored into a local variable cell (an Alloc, or the FreeVar of a closure bound to one).
+func cellStores(cell ssa.Value) ([]ssa.Value, bool) {
+	switch c := cell.(type) {
+	case *ssa.FreeVar:
+		fn := c.Parent()
+		idx := -1
+		for i, fv := range fn.FreeVars {
+			if fv == c {
+				idx = i
+			}
+		}
+		if fn.Parent() == nil || idx < 0 {
+			return nil, false
+		}
+		var out []ssa.Value
+		found := false
+		eachInstr(fn.Parent(), func(b *ssa.BasicBlock, i int, in ssa.Instruction) {
+			if mc, ok := in.(*ssa.MakeClosure); ok && mc.Fn == ssa.Value(fn) && idx < len(mc.Bindings) {
+				if vs, ok := cellStores(mc.Bindings[idx]); ok {
+					out = append(out, vs...)
+					found = true
+				}
+			}
+		})
+		return out, found
+	case *ssa.Alloc:
+		var out []ssa.Value
+		ok := true
+		var visit func(fn *ssa.Function, cellIn ssa.Value)
+		visit = func(fn *ssa.Function, cellIn ssa.Value) {
+			refs := cellIn.Referrers()
+			if refs == nil {
+				return
+			}
+			for _, u := range *refs {
+				switch y := u.(type) {
+				case *ssa.Store:
+					if y.Addr == cellIn {
+						out = append(out, y.Val)
+					} else {
+						ok = false
+					}
+				case *ssa.UnOp, *ssa.DebugRef:
+				case *ssa.MakeClosure:
+					for i, bnd := range y.Bindings {
+						if bnd == cellIn {
+							cf := y.Fn.(*ssa.Function)
+							if i < len(cf.FreeVars) {
+								visit(cf, cf.FreeVars[i])
+							}
+						}
+					}
+				default:
+					ok = false
+				}
+			}
+		}
+		visit(c.Parent(), c)
+		return out, ok
+	}
+	return nil, false
+}
+
+// rootField: the field (or pointer parameter, as "*name") a slice value is a view of.
+func rootField(v ssa.Value, depth int) (fv *types.Var, ptrParam string, ok bool) {
+	if depth > 12 {
+		return nil, "", false
+	}
+	switch x := v.(type) {
+	case *ssa.Slice:
+		return rootField(x.X, depth+1)
+	case *ssa.ChangeType:
+		return rootField(x.X, depth+1)
+	case *ssa.Call:
+		if isBuiltinCall(x, "append") {
+			return rootField(x.Call.Args[0], depth+1)
+		}
+	case *ssa.Phi:
+		for _, e := range x.Edges {
+			if f, pp, ok := rootField(e, depth+1); ok {
+				return f, pp, true
+			}
+		}
+	case *ssa.UnOp:
+		if x.Op == token.MUL {
+			switch a := x.X.(type) {
+			case *ssa.FieldAddr:
+				return fieldOfAddr(a), "", true
+			case *ssa.Parameter:
+				return nil, "*" + a.Type().String(), true
+			case *ssa.Alloc, *ssa.FreeVar:
+				if vs, ok := cellStores(a); ok {
+					for _, sv := range vs {
+						if f, pp, ok := rootField(sv, depth+1); ok {
+							return f, pp, true
+						}
+					}
+				}
+			}
+		}
+	}
+	return nil, "", false
+}
+
+// checkRetained: C20.retain
+func checkRetained(r *Run, rc *RuleCtx, hot []*ssa.Function) {
+	p := r.P
+	// growable retained buffers: fields (or pointees of pointer receivers) some hot function appends onto
+	growF := map[*types.Var]bool{}
+	growP := map[string]bool{}
+	for _, fn := range hot {
+		eachInstr(fn, func(b *ssa.BasicBlock, i int, in ssa.Instruction) {
+			if c, ok := in.(*ssa.Call); ok && isBuiltinCall(c, "append") && retainedBase(c.Call.Args[0], 0) {
+				if f, pp, ok := rootField(c.Call.Args[0], 0); ok {
+					if f != nil {
+						growF[f] = true
+					} else {
+						growP[pp] = true
+					}
+				}
+			}
+		})
+	}
+	for _, fn := range hot {
+		eachInstr(fn, func(b *ssa.BasicBlock, i int, in ssa.Instruction) {
+			st, ok := in.(*ssa.Store)
+			if !ok {
+				return
+			}
+			if _, isSl := st.Val.Type().Underlying().(*types.Slice); !isSl {
+				return
+			}
+			var fv *types.Var
+			var what string
+			switch a := st.Addr.(type) {
+			case *ssa.FieldAddr:
+				fv = fieldOfAddr(a)
+				if !growF[fv] {
+					return
+				}
+				what = ownerName(p, fv) + "." + fv.Name()
+			case *ssa.Parameter:
+				if !growP["*"+a.Type().String()] {
+					return
+				}
+				what = "*" + a.Name()
+			default:
+				return
+			}
+			if !canSucceed(p, fn, b) {
+				return
+			}
+			clamp := false
+			der := derivedFromField(st.Val, fv, 0, map[ssa.Value]bool{}, &clamp)
+			class := "derived from itself"
+			switch {
+			case der && clamp:
+				class = "capacity clamped"
+			case !der && isNilConst(st.Val):
+				class = "dropped (nil)"
+			case !der:
+				class = "replaced by " + exprCanon(st.Val)
+			}
+			rc.Instance(fnName(fn)+"|"+what+"|"+class, true, map[string]interface{}{"fn": fnName(fn), "store": what, "class": class})
+			switch {
+			case der && clamp:
+				rc.Violation(fn, instrPos(st), what+" = "+exprCanon(st.Val), "a three-index reslice clamps the capacity of a reused buffer: the next larger value (e.g. an IPv6 address after an IPv4 one) has to reallocate although the destination was warm")
+			case !der:
+				rc.Violation(fn, instrPos(st), what+" = "+exprCanon(st.Val), "the warm backing array of a reused buffer is dropped/replaced on a path that reports success: the next operation that appends onto it allocates again")
+			}
+		})
+	}
+}
+
+func ownerName(p *Prog, fv *types.Var) string {
+	if n, ok := fieldOwner(p, fv); ok {
+		return n.Obj().Name()
+	}
+	return "?"
 }
